@@ -688,8 +688,114 @@ func pathProp() engine.AnyProp {
 	}
 }
 
+// ---- the file-system repository over a damaged (and possibly long) asset file ----
+
+// fsCase: a generated CSV document, preceded by Pad well-formed rows (files longer than the copy
+// and buffer sizes of the I/O layers).
+type fsCase struct {
+	Data  []byte `json:"data"`
+	Pad   int    `json:"pad"`
+	After bool   `json:"after,omitempty"` // the padding rows follow the document instead of preceding its rows
+}
+
+func fsRepoProp() engine.AnyProp {
+	return engine.Prop[fsCase]{
+		ID: "C19", Subject: "filesystem-repository",
+		Gen: func(t *rapid.T) fsCase {
+			c := genCSV[asset.Snapshot](t)
+			for !c.Header {
+				c = genCSV[asset.Snapshot](t)
+			}
+			pad := 0
+			if rapid.IntRange(0, 4).Draw(t, "padded") == 2 {
+				pad = rapid.SampledFrom([]int{100, 900, 1800, 3000}).Draw(t, "pad")
+			}
+			return fsCase{Data: c.Data, Pad: pad, After: rapid.Bool().Draw(t, "after")}
+		},
+		Check: func(c fsCase) engine.Outcome {
+			var o engine.Outcome
+			data := c.Data
+			if c.Pad > 0 {
+				// insert the padding rows right after the header line (if the header has the six
+				// columns in order; otherwise the document is left as it is)
+				head := []byte("Date,Open,High,Low,Close,Volume\n")
+				if bytes.HasPrefix(data, head) {
+					var sb bytes.Buffer
+					sb.Write(head)
+					if c.After {
+						sb.Write(data[len(head):])
+						if n := sb.Len(); n > 0 && sb.Bytes()[n-1] != '\n' {
+							sb.WriteByte('\n')
+						}
+					}
+					for i := 0; i < c.Pad; i++ {
+						fmt.Fprintf(&sb, "2001-01-%02d,%d.5,%d.75,%d.25,%d.5,%d\n", 1+i%28, i, i, i, i, 1000+i)
+					}
+					if !c.After {
+						sb.Write(data[len(head):])
+					}
+					data = sb.Bytes()
+				}
+			}
+			dir, err := os.MkdirTemp("", "verif-c19-fs-")
+			if err != nil {
+				o.Failf("harness: %v", err)
+				return o
+			}
+			defer os.RemoveAll(dir)
+			if err := os.WriteFile(filepath.Join(dir, "aapl.csv"), data, 0o600); err != nil {
+				o.Failf("harness: %v", err)
+				return o
+			}
+			repo := asset.NewFileSystemRepository(dir)
+			var getErr error
+			res := pipe.Run([][]int{}, pipe.Opts{SpinLimit: 10 * time.Second}, func(_ []<-chan int) []<-chan *asset.Snapshot {
+				ch, err := repo.Get("aapl")
+				getErr = err
+				if err != nil {
+					empty := make(chan *asset.Snapshot)
+					close(empty)
+					return []<-chan *asset.Snapshot{empty}
+				}
+				return []<-chan *asset.Snapshot{ch}
+			})
+			if !res.OK() {
+				o.Failf("FileSystemRepository.Get on a file of %d bytes (%d padding rows, then %q): %s: %s", len(data), c.Pad, c.Data, res.Verdict, res.Detail)
+				return o
+			}
+			want, ambiguous := refCSV[asset.Snapshot](data, true)
+			if getErr == nil && !ambiguous {
+				got := res.Outs[0]
+				if len(got) != len(want) {
+					o.Failf("FileSystemRepository.Get on a file of %d bytes (%d padding rows, then %q): delivered %d snapshots, the well-formed prefix has %d", len(data), c.Pad, c.Data, len(got), len(want))
+					return o
+				}
+				for i := range want {
+					if got[i] == nil || !equalValue(reflect.ValueOf(*got[i]), reflect.ValueOf(want[i])) {
+						o.Failf("FileSystemRepository.Get (%d padding rows, then %q): snapshot %d delivered as %+v, the file says %+v", c.Pad, c.Data, i, got[i], want[i])
+						return o
+					}
+				}
+			}
+			// LastDate reads the same file to its end (or to the damage) and must come back
+			if verdict, detail := pipe.Call(func() { _, _ = repo.LastDate("aapl") }); verdict != "ok" {
+				o.Failf("FileSystemRepository.LastDate on a damaged file: %s: %s", verdict, detail)
+				return o
+			}
+			all, _ := csv.NewReader(bytes.NewReader(data)).ReadAll()
+			o.NonTrivial = len(want) >= 1 && len(want) < len(all)-1
+			if len(data) > 64<<10 {
+				o.Class("file_longer_than_64KiB")
+			}
+			o.Key = fmt.Sprint(c.Pad, string(c.Data))
+			return o
+		},
+	}
+}
+
 func props() []engine.AnyProp {
 	return []engine.AnyProp{
+		fsRepoProp(),
 		csvProp[RowA]("RowA(string,bool,ints)"), csvProp[RowB]("RowB(uints,floats)"), csvProp[RowC]("RowC(times,renamed)"), csvProp[asset.Snapshot]("Snapshot"),
 		jsonProp[int]("int", "int"), jsonProp[float64]("float64", "float64"), jsonProp[string]("string", "string"), jsonProp[asset.Snapshot]("Snapshot", "snapshot"),
 		tiingoProp(), pathProp(),
